@@ -34,7 +34,58 @@ def check_invariance(inp):
     return fails
 
 
-CHECKS = {"invariance": check_invariance}
+def check_permutation_accepted(inp):
+    """
+    'for any ACCEPTED vector, permuting its fields ... leaves the outputs unchanged': whatever string the constructor
+    accepts (inside the grammar or not - that is C04's business), every rotation and the reversal of its fields must be
+    accepted too and give the same outputs.  Strings the constructor rejects are outside the domain.
+    """
+    import random
+    ver, s = inp["ver"], inp["s"]
+    V = spec.VERS[ver]
+    prefix = next((p for p in V.prefixes if s.startswith(p)), None)
+    if prefix is None:
+        return []
+    k, o = obs.construct(ver, s)
+    if k != "ok":
+        return []
+    inp["_accepted"] = True
+    base = obs.observables(ver, o)
+    fields = s[len(prefix):].split("/")
+    variants = [fields[::-1]] + [fields[i:] + fields[:i] for i in range(1, min(len(fields), 6))]
+    r = random.Random(inp.get("oseed", 1))
+    sh = list(fields)
+    r.shuffle(sh)
+    variants.append(sh)
+    fails = []
+    for f in variants:
+        b = prefix + "/".join(f)
+        kb, ob = obs.construct(ver, b)
+        if kb != "ok":
+            fails.append(failure("permutation %r of the accepted vector is accepted" % b, kb))
+            break
+        xb = obs.observables(ver, ob)
+        bad = [key for key in sorted(base) if base[key] != xb[key]]
+        if bad or not (o == ob):
+            key = bad[0] if bad else "=="
+            fails.append(failure(base.get(key), xb.get(key), note="%s differs between %r and its permutation %r" % (key, s, b)))
+            break
+    return fails
+
+
+CHECKS = {"invariance": check_invariance, "permutation_accepted": check_permutation_accepted}
+
+
+def ball_part(shard, n_seeds, seed):
+    """members of complete one-edit neighbourhoods that the constructor accepts outside the grammar (none where C04 holds)"""
+    from . import c04
+    part = runner.Part(PID)
+    found, tried = c04.accepted_outside_grammar(shard, n_seeds, seed, 5)
+    part.count(None, classes=("one-edit-ball-member-tried",), n=tried)
+    for ver, t in found[:300]:
+        part.classes["ball-member-accepted-outside-grammar"] += 1
+        part.check("permutation_accepted", check_permutation_accepted, {"ver": ver, "s": t})
+    return part
 
 
 def respelling(ver):
@@ -77,6 +128,17 @@ def hyp_part(n_examples, shard):
     from hypothesis import given, strategies as st
     part = runner.Part(PID)
 
+    @runner.seeded(5, 100 + shard)
+    @runner.hyp_settings(max(1, n_examples // 3))
+    @given(gen.version_key().flatmap(lambda v: st.tuples(st.just(v), gen.mutated(v, max_edits=2))), st.integers(1, 2 ** 20))
+    def t2(c, oseed):
+        ver, (s, ops) = c
+        inp = {"ver": ver, "s": s, "oseed": oseed}
+        part.check("permutation_accepted", check_permutation_accepted, inp, hyp=True)
+        acc = inp.pop("_accepted", False)
+        part.count(inp, nontrivial=False, classes=("mutant", "mutant-accepted" if acc else "mutant-rejected"))
+    runner.run_hyp(part, t2, "C05.hyp.mutants")
+
     @runner.seeded(5, shard)
     @runner.hyp_settings(n_examples)
     @given(gen.version_key().flatmap(lambda v: st.tuples(st.just(v), respelling(v))))
@@ -97,10 +159,12 @@ def hyp_part(n_examples, shard):
 
 def run(tier, t0):
     part = runner.hyp_shards("vf.props.c05", "hyp_part", 8000 if tier == "quick" else 320000)
+    for p in runner.parallel("vf.props.c05", "ball_part", [(sh, 1 if tier == "quick" else 12, runner.SEED) for sh in range(runner.NPROC)]):
+        part.merge(p)
     rule = ("accepted vector (any spelling) and a second spelling of the same metric assignment: seeded permutation of "
             "the fields and an independent subset (half of the time exactly one) of the Not Defined optional metrics "
             "toggled between written and omitted; non-trivial = second spelling differs in order AND in at least one "
             "Not Defined toggle; distinct by 64-bit hash of the pair")
     return runner.finish(part, tier, t0, rule,
                          ["as_json is not among the compared observables (not listed in the statement)"],
-                         required=("v2", "v3", "v4", "nd-toggle", "single-nd-toggle", "permuted"))
+                         required=("v2", "v3", "v4", "nd-toggle", "single-nd-toggle", "permuted", "mutant", "one-edit-ball-member-tried"))
